@@ -1606,12 +1606,28 @@ throw_away_mapping (parse_node_t * pn)
   return ret;
 }
 
+/**
+ * @brief The number of arguments of a call is a one byte operand of the call
+ * instruction (F_CALL_FUNCTION_BY_ADDRESS, F_CALL_INHERITED, F_SIMUL_EFUN,
+ * F_EFUNV, F_SSCANF, F_PARSE_COMMAND). A longer list would be evaluated in
+ * full while the callee is told the count modulo 256.
+ * @param num Number of arguments in the source.
+ * @param extra Arguments the compiler adds (the object and the name of a call_other ...).
+ */
+void check_argument_count (int64_t num, int extra) {
+
+  if (num + extra > 255)
+    yyerror ("Too many arguments in call (at most 255).");
+}
+
 parse_node_t* validate_efun_call (int f, parse_node_t * args) {
 
   int num = (int)args->v.number;
   int min_arg, max_arg, def, *argp;
   int num_var = 0;
   parse_node_t *pn = args->r.expr;
+
+  check_argument_count (num, 1);	/* maybe a default argument */
 
   while (pn)
     {
